@@ -223,7 +223,9 @@ class _Tx:
 
 
 def translate_arr(repo_root, spec: ArrSpec) -> ArrTranslated:
-    fn, text = find_function(repo_root, spec.source, spec.func, spec.cls)
+    from pathlib import Path
+    text = (Path(repo_root) / spec.source).read_text()
+    fn = find_function(ast.parse(text), spec.func, spec.cls)
     tx = _Tx(spec)
     tx.returned = False
     body = list(fn.body)
